@@ -63,6 +63,9 @@ func genC05(g *Rng, tier string, emit func(Op)) {
 	}
 	// the parameter set in which the message length differs from the hash length (Lm 512, Lh 256)
 	keys = append(keys, key4096("k4096", 3))
+	// parameter sets other than the shipped ones: the exponent interval has 2^(LePrime-1) values,
+	// LePrime-1 a multiple of 8 or not
+	keys = append(keys, toyKeyWith("toy121", 4, 121), toyKeyWith("toy125", 4, 125))
 	for _, kp := range keys {
 		emit(declKey(kp))
 	}
